@@ -1307,6 +1307,8 @@ has no key: the multisig acts only through the messages its handlers return, whi
 covered, at any nesting depth.) -/
 def External (self : Addr) (ops : List Op) : Prop := ∀ op ∈ ops, Action.sender op.act ≠ self
 
+instance (self : Addr) (ops : List Op) : Decidable (External self ops) := by unfold External; infer_instance
+
 /-- The world invariant of the pool accounting: the balance-free part, and — unless an executed proposal spends the
 deposit denomination — holdings ≥ owed. -/
 def PoolInv (dep : Deposit) (self : Addr) (w : World) : Prop :=
@@ -1424,5 +1426,399 @@ theorem pool_covers_owed_if_unspent {ext : Ext} {fuel : Nat} {m : InstMsg} {s : 
   rcases hcov with h | h
   · exact absurd h (not_dirty_of_noSpend hns)
   · exact h
+
+/-- A decidable form of the guard `NoSpend` (for concrete worlds). -/
+def noSpendB (dep : Deposit) (w : World) : Bool :=
+  w.flex.core.proposals.all fun e => !(w.log.contains (.executed e.1)) || e.2.msgs.all fun m => !(spends dep m)
+
+theorem noSpend_of_check {dep : Deposit} {w : World} (h : noSpendB dep w = true) : NoSpend dep w := by
+  intro id p h1 h2 m hm
+  have hmem := AMap.get?_some_mem h2
+  have := (List.all_eq_true.mp h) (id, p) hmem
+  simp only [Bool.or_eq_true, Bool.not_eq_true', List.contains_eq_mem, decide_eq_false_iff_not, List.all_eq_true] at this
+  rcases this with h | h
+  · exact absurd h1 h
+  · exact h m hm
+
+/-! ### (a) what a Propose / Close / Execute transaction moves, exactly -/
+
+/-- **C15, pool clause (a), taking: a committed `Propose` moves exactly the configured deposit from the proposer into
+the multisig, and nothing else of that denomination.**  Sender other than the multisig itself.
+* native deposit: the whole bank ledger of the new world is the old one with `amount` of `denom` moved from the
+  proposer to the multisig — every other `(account, denom)` entry is unchanged — and the token is untouched;
+* cw20 deposit: the whole balance ledger of the token is the old one with `amount` moved from the proposer to the
+  multisig (the dispatched `TransferFrom`) — every other account unchanged.
+In both cases the multisig's holdings of the deposit denomination grow by exactly `amount`. -/
+theorem deposits_taken_exact {ext : Ext} {fuel : Nat} {w w' : World} {blk : Block} {snd : Addr} {funds : List Coin}
+    {t d : String} {msgs : List Msg} {latest : Option Expiration} {dep : Deposit}
+    (hi : Inv w.flex) (hd : w.flex.cfg.deposit = some dep) (hne : snd ≠ w.self)
+    (h : tx ext fuel w blk (.flex snd funds (.propose t d msgs latest)) = .ok w') :
+    holdings dep w' = holdings dep w + dep.amount ∧ w'.self = w.self ∧
+    (dep.cw20 = false →
+      w'.token = w.token ∧ dep.amount ≤ balance w snd dep.denom ∧
+      ∀ a dn, balance w' a dn =
+        if dn = dep.denom then
+          (if a = w.self then balance w a dn + dep.amount else if a = snd then balance w a dn - dep.amount else balance w a dn)
+        else balance w a dn) ∧
+    (dep.cw20 = true →
+      dep.amount ≤ Cw20.bal w.token snd ∧
+      ∀ a, Cw20.bal w'.token a =
+        if a = w.self then Cw20.bal w.token a + dep.amount else if a = snd then Cw20.bal w.token a - dep.amount
+        else Cw20.bal w.token a) := by
+  have hne' : ¬ w.self = snd := fun e => hne e.symm
+  by_cases hcw : dep.cw20 = true
+  · -- cw20
+    have h' := h
+    simp only [tx, Res.bind_ok] at h'
+    obtain ⟨b, hb, ⟨s', out⟩, he, hdisp⟩ := h'
+    have hout := (propose_takes_exact_deposit hi he).1
+    simp only [hd, hcw, if_true] at hout
+    subst hout
+    obtain ⟨_, t', hex, ht'⟩ := propose_cw20_tx hi hd hcw h
+    obtain ⟨_, _, s1, b1, b2, hded, h1, h2, hs', _⟩ := Cw20.execTransferFrom_inv hex
+    have hself : w'.self = w.self := by
+      cases fuel with
+      | zero => simp [dispatch] at hdisp
+      | succ fuel =>
+        simp only [dispatch, Res.bind_ok] at hdisp
+        obtain ⟨w1, h1', h2'⟩ := hdisp
+        obtain ⟨tt, rfl⟩ := tokenCall_frame h1'
+        cases fuel <;> simp [dispatch] at h2' <;> subst h2' <;> rfl
+    have hbal : ∀ a, Cw20.bal w'.token a =
+        if a = w.self then Cw20.bal w.token a + dep.amount else if a = snd then Cw20.bal w.token a - dep.amount
+        else Cw20.bal w.token a := by
+      intro a
+      have := (Cw20.move_get h1 h2 a).2
+      rw [ht', hs']
+      simp only [Cw20.bal] at this ⊢
+      rw [this]
+      by_cases e1 : a = w.self
+      · subst e1; simp [hne']
+      · by_cases e2 : a = snd
+        · subst e2; simp [e1]
+        · simp [e1, e2]
+    refine ⟨?_, hself, fun hf => absurd hcw (by simp [hf]), fun _ => ⟨(Cw20.move_get h1 h2 snd).1, hbal⟩⟩
+    simp only [holdings, hcw, if_true, hself]
+    rw [hbal w.self]; simp
+  · -- native
+    have hcw' : dep.cw20 = false := by simpa using hcw
+    have h' := h
+    simp only [tx, Res.bind_ok] at h'
+    obtain ⟨b, hb, ⟨s', out⟩, he, hdisp⟩ := h'
+    have hout := (propose_takes_exact_deposit hi he).1
+    simp only [hd, hcw', Bool.false_eq_true, if_false] at hout
+    obtain ⟨hf, rfl⟩ := hout
+    subst hf
+    rw [moveFunds_single (hi.depositPos dep hd)] at hb
+    have hw' : w' = { w with bank := b, flex := s', log := w.log ++ [eventOf w.flex snd (.propose t d msgs latest)] } := by
+      cases fuel <;> simp [dispatch] at hdisp <;> exact hdisp.symm
+    have hbal : ∀ a dn, balance w' a dn =
+        if dn = dep.denom then
+          (if a = w.self then balance w a dn + dep.amount else if a = snd then balance w a dn - dep.amount else balance w a dn)
+        else balance w a dn := by
+      intro a dn
+      have := (bankSend_get hb a dn).2.2
+      subst hw'
+      simp only [balance] at this ⊢
+      rw [this]
+      by_cases e0 : dn = dep.denom
+      · subst e0
+        by_cases e1 : a = w.self
+        · subst e1; simp [hne']
+        · by_cases e2 : a = snd
+          · subst e2; simp [e1]
+          · simp [e1, e2]
+      · simp [e0]
+    refine ⟨?_, by subst hw'; rfl, fun _ => ⟨by subst hw'; rfl, (bankSend_get hb snd dep.denom).2.1, hbal⟩,
+      fun hf => absurd hf hcw⟩
+    have hs : w'.self = w.self := by subst hw'; rfl
+    simp only [holdings, hcw', Bool.false_eq_true, if_false, hs]
+    rw [hbal w.self dep.denom]; simp
+
+/-- **C15, pool clause (a), returning by `Close`.**  A committed `Close` of a proposal whose deposit has
+`refund_failed_proposals = true`, sent by somebody other than the multisig, refund addressed to somebody other than the
+multisig: the pool shrinks by exactly the deposit (after the attached funds, if any, were added) — the transaction is
+exactly `close_refund_tx`: one transfer to the proposer and nothing else; by `refund_at_most_once` it happens at most
+once per proposal. -/
+theorem deposits_returned_exact_close {ext : Ext} {fuel : Nat} {w w' : World} {blk : Block} {snd : Addr}
+    {funds : List Coin} {id : Nat} {p : Proposal} {dep : Deposit}
+    (hp : w.flex.core.proposals.get? id = some p) (hd : p.deposit = some dep) (hrf : dep.refundFailed = true)
+    (hne : snd ≠ w.self) (hpr : p.proposer ≠ w.self)
+    (h : tx ext fuel w blk (.flex snd funds (.close id)) = .ok w') :
+    holdings dep w' + dep.amount = holdings dep w + (if dep.cw20 then 0 else fundsOf dep.denom funds) := by
+  obtain ⟨b0, s', hb0, hrest⟩ := close_refund_tx hp hd hrf h
+  have hpr' : ¬ w.self = p.proposer := fun e => hpr e.symm
+  by_cases hcw : dep.cw20 = true
+  · simp only [hcw, if_true] at hrest
+    obtain ⟨_, t, hex, rfl⟩ := hrest
+    obtain ⟨_, b1, b2, h1, h2, rfl, _⟩ := Cw20.execTransfer_inv hex
+    obtain ⟨hle, hg⟩ := Cw20.move_get h1 h2 w.self
+    simp only [holdings, hcw, if_true, Cw20.bal, hg]
+    simp [hpr']
+    omega
+  · have hcw' : dep.cw20 = false := by simpa using hcw
+    simp only [hcw', Bool.false_eq_true, if_false] at hrest
+    obtain ⟨b1, hb1, rfl⟩ := hrest
+    obtain ⟨_, hle, hg⟩ := bankSend_get hb1 w.self dep.denom
+    have hf := moveFunds_get_to hb0 hne dep.denom
+    have hg' : (b1.get? (w.self, dep.denom)).getD 0 = (b0.get? (w.self, dep.denom)).getD 0 - dep.amount := by
+      rw [hg]; simp [hpr']
+    simp only [holdings, hcw', Bool.false_eq_true, if_false, balance, hg']
+    omega
+
+/-- **C15, pool clause (a), returning by `Execute`.**  A committed `Execute` of a proposal with a deposit: right after
+the refund step — before any of the proposal's own messages is dispatched — the pool has shrunk by exactly the deposit
+(after the attached funds were added); the rest of the transaction is the dispatch of the proposal's messages from that
+world. -/
+theorem deposits_returned_exact_execute {ext : Ext} {fuel : Nat} {w w' : World} {blk : Block} {snd : Addr}
+    {funds : List Coin} {id : Nat} {p : Proposal} {dep : Deposit}
+    (hp : w.flex.core.proposals.get? id = some p) (hd : p.deposit = some dep)
+    (hne : snd ≠ w.self) (hpr : p.proposer ≠ w.self)
+    (h : tx ext fuel w blk (.flex snd funds (.execute id)) = .ok w') :
+    ∃ wmid fuel', wmid.self = w.self ∧ wmid.log = w.log ++ [.executed id] ∧
+      holdings dep wmid + dep.amount = holdings dep w + (if dep.cw20 then 0 else fundsOf dep.denom funds) ∧
+      dispatch ext fuel' wmid blk (p.msgs.map Out.msg) = .ok w' := by
+  have hpr' : ¬ w.self = p.proposer := fun e => hpr e.symm
+  by_cases hcw : dep.cw20 = true
+  · obtain ⟨_, b0, t, s', fuel', hb0, hex, _, hdisp⟩ := execute_cw20_tx hp hd hcw h
+    refine ⟨{ w with bank := b0, token := t, flex := s', log := w.log ++ [.executed id] }, fuel', rfl, rfl, ?_, hdisp⟩
+    obtain ⟨_, b1, b2, h1, h2, rfl, _⟩ := Cw20.execTransfer_inv hex
+    obtain ⟨hle, hg⟩ := Cw20.move_get h1 h2 w.self
+    have hg' : (b2.get? w.self).getD 0 = (w.token.balances.get? w.self).getD 0 - dep.amount := by
+      rw [hg]; simp [hpr']
+    simp only [holdings, hcw, if_true, Cw20.bal, hg']
+    omega
+  · have hcw' : dep.cw20 = false := by simpa using hcw
+    obtain ⟨b0, b1, s', fuel', hb0, hb1, _, hdisp⟩ := execute_native_tx hp hd hcw' h
+    refine ⟨{ w with bank := b1, flex := s', log := w.log ++ [.executed id] }, fuel', rfl, rfl, ?_, hdisp⟩
+    obtain ⟨_, hle, hg⟩ := bankSend_get hb1 w.self dep.denom
+    have hf := moveFunds_get_to hb0 hne dep.denom
+    have hg' : (b1.get? (w.self, dep.denom)).getD 0 = (b0.get? (w.self, dep.denom)).getD 0 - dep.amount := by
+      rw [hg]; simp [hpr']
+    simp only [holdings, hcw', Bool.false_eq_true, if_false, balance, hg']
+    omega
+
+/-! ### (c) under the guard the refund cannot fail for lack of funds -/
+
+theorem bankSend_isOk {bank : AMap (Addr × String) Nat} {frm to : Addr} {amt : Nat} {denom : String}
+    (h0 : amt ≠ 0) (hle : amt ≤ (bank.get? (frm, denom)).getD 0)
+    (hcap : (bank.get? (to, denom)).getD 0 + amt ≤ U128_MAX) :
+    ∃ b, Cw3Fixed.bankSend bank frm to amt denom = .ok b := by
+  have hcap' : (((bank.set (frm, denom) ((bank.get? (frm, denom)).getD 0 - amt)).get? (to, denom)).getD 0) + amt ≤ U128_MAX := by
+    by_cases e : frm = to
+    · subst e; simp; omega
+    · have : (frm, denom) ≠ (to, denom) := by intro x; cases x; exact e rfl
+      rw [AMap.get?_set_ne _ _ _ _ this]; exact hcap
+  simp [Cw3Fixed.bankSend, h0, hle, hcap']
+
+theorem cw20_transfer_isOk {t : Cw20.State} {blk : Block} {frm to : Addr} {amt : Nat}
+    (hle : amt ≤ Cw20.bal t frm) (hcap : Cw20.bal t to + amt ≤ U128_MAX) :
+    ∃ t', Cw20.execute t blk frm (.transfer ⟨true, to⟩ amt) = .ok (t', []) := by
+  simp only [Cw20.bal] at hle hcap
+  have hcap' : (((t.balances.set frm ((t.balances.get? frm).getD 0 - amt)).get? to).getD 0) + amt ≤ U128_MAX := by
+    by_cases e : frm = to
+    · subst e; simp; omega
+    · rw [AMap.get?_set_ne _ _ _ _ e]; exact hcap
+  simp [Cw20.execute, Cw20.execTransfer, Cw20.debit, Cw20.credit, hle, hcap']
+
+theorem mem_unreturned {w : World} {id : Nat} :
+    id ∈ unreturned w ↔ (1 ≤ id ∧ id ≤ w.flex.core.count) ∧ handled w.log id = 0 := by
+  simp [unreturned, List.mem_range'_1]; omega
+
+theorem pend_pos {log : List Event} {id : Nat} (h0 : handled log id = 0) : ∀ n, 1 ≤ id → id ≤ n → 1 ≤ pend log n
+  | 0, h, h' => by omega
+  | n + 1, h, h' => by
+    simp only [pend]
+    by_cases e : id = n + 1
+    · subst e; simp [h0]
+    · have := pend_pos h0 n h (by omega); omega
+
+/-- **C15, pool clause (c): under the guard a refund never fails for lack of funds.**  Same setting as
+`pool_covers_owed_if_unspent`.  In the resulting world, for every proposal whose deposit is still owed (never
+Executed/Closed), the multisig holds at least one deposit of the deposit denomination; hence the transfer that the
+refund message of `Execute`/`Close` dispatches passes its debit check and succeeds whenever the recipient can receive
+(its balance plus the amount fits `Uint128` — the only other way the bank send / the token's `Transfer` can fail):
+* native: `BankMsg::Send { to, amount denom }` from the multisig succeeds,
+* cw20: the token's `Transfer { recipient: to, amount }` sent by the multisig succeeds. -/
+theorem refund_never_fails_for_lack_of_funds_guarded {ext : Ext} {fuel : Nat} {m : InstMsg} {s : State}
+    {g : Cw4Group.State} {t : Cw20.State} {bank : AMap (Addr × String) Nat} {self ga ta : Addr} {h0 : Nat}
+    {dep : Deposit} {ops : List Op}
+    (hi : instantiate m (some g) = .ok s) (hd : s.cfg.deposit = some dep)
+    (hgr : dep.cw20 = true → NoGrant t self) (hext : External self ops)
+    (hns : NoSpend dep (run ext fuel (World.init s g t bank self ga ta h0) ops))
+    {id : Nat} (hid : id ∈ unreturned (run ext fuel (World.init s g t bank self ga ta h0) ops)) :
+    let w := run ext fuel (World.init s g t bank self ga ta h0) ops
+    dep.amount ≤ holdings dep w ∧
+    (dep.cw20 = false → ∀ to, balance w to dep.denom + dep.amount ≤ U128_MAX →
+      ∃ b, Cw3Fixed.bankSend w.bank w.self to dep.amount dep.denom = .ok b) ∧
+    (dep.cw20 = true → ∀ to blk, Cw20.bal w.token to + dep.amount ≤ U128_MAX →
+      ∃ t', Cw20.execute w.token blk w.self (.transfer ⟨true, to⟩ dep.amount) = .ok (t', [])) := by
+  intro w
+  have hcov := pool_covers_owed_if_unspent (ext := ext) (fuel := fuel) (bank := bank) (ga := ga) (ta := ta) (h0 := h0)
+    hi hd hgr hext hns
+  obtain ⟨_, hg, _⟩ := pool_run (ext := ext) (fuel := fuel) ops _
+    (pool_init (bank := bank) (ga := ga) (ta := ta) (h0 := h0) hi hd hgr) hext
+  rw [owed_eq hg.ghost.1 hg.cfg] at hcov
+  obtain ⟨hr, hh⟩ := mem_unreturned.mp hid
+  have hpos := pend_pos hh _ hr.1 hr.2
+  have hle : dep.amount ≤ holdings dep w := by
+    have h1 : dep.amount * 1 ≤ dep.amount * pend w.log w.flex.core.count := Nat.mul_le_mul_left _ hpos
+    exact Nat.le_trans (by omega) (Nat.le_trans h1 hcov)
+  have hpos0 := hg.ghost.1.depositPos dep hg.cfg
+  refine ⟨hle, fun hcw to hcap => ?_, fun hcw to blk hcap => ?_⟩
+  · simp only [holdings, hcw, Bool.false_eq_true, if_false, balance] at hle
+    exact bankSend_isOk hpos0 hle hcap
+  · simp only [holdings, hcw, if_true] at hle
+    exact cw20_transfer_isOk hle hcap
+
+/-- **Clause (c) at transaction level: under the guard a `Close` that the handler accepts commits.**  In a world that
+satisfies the pool invariant and in which no executed proposal spends the deposit denomination, if the `Close` handler
+returns `Ok` (no funds attached), the recipient of the refund can receive it, there is fuel for one message, and — cw20
+deposit — the deposit token is the world's token contract, then the whole transaction succeeds: the refund dispatch
+cannot fail.  (Compare `pool_guard_necessary`: without the guard the handler returns `Ok` and the transaction fails.) -/
+theorem close_tx_commits_guarded {ext : Ext} {fuel : Nat} {dep : Deposit} {self : Addr} {w : World} {blk : Block}
+    {snd : Addr} {id : Nat} {p : Proposal} {s' : State} {out : List Out}
+    (hq : PoolInv dep self w) (hns : NoSpend dep w)
+    (hp : w.flex.core.proposals.get? id = some p)
+    (he : execute w.flex w.group w.self blk snd [] (.close id) = .ok (s', out))
+    (hcapN : dep.cw20 = false → balance w p.proposer dep.denom + dep.amount ≤ U128_MAX)
+    (hcapT : dep.cw20 = true → dep.denom = w.tokenAddr ∧ Cw20.bal w.token p.proposer + dep.amount ≤ U128_MAX) :
+    (tx ext (fuel + 1) w blk (.flex snd [] (.close id))).isOk = true := by
+  obtain ⟨_, hg, hcov⟩ := hq
+  have hi := hg.ghost.1
+  have hle0 : due dep w ≤ holdings dep w := by
+    rcases hcov with h | h
+    · exact absurd h (not_dirty_of_noSpend hns)
+    · exact h
+  obtain ⟨_, hc⟩ := execute_cases he
+  rcases hc with ⟨_, _, _, _, _, _, _, hm, _⟩ | ⟨_, _, hm, _⟩ | ⟨_, _, _, hm, _⟩ | ⟨id0, p1, hm, hpp, hcl, hout⟩ | ⟨hm, _⟩ <;>
+    cases hm
+  rw [hp] at hpp; cases hpp
+  obtain ⟨p0, st, hp0, _, hnr, _, _, _, _, _⟩ := close_spec hcl
+  rw [hp] at hp0; cases hp0
+  have hrange := (hi.wf.ids id).mp (by rw [hp]; rfl)
+  have hh : handled w.log id = 0 := by
+    obtain ⟨hle, hfin⟩ := hg.ghost.2 id
+    rcases Nat.lt_or_ge (handled w.log id) 1 with h | h
+    · omega
+    · have := hfin (by omega)
+      simp [isFinal, hp] at this
+      rcases this with h | h <;> simp_all
+  have hpos := pend_pos hh _ hrange.1 hrange.2
+  have hle : dep.amount ≤ holdings dep w := by
+    have : dep.amount * 1 ≤ dep.amount * pend w.log w.flex.core.count := Nat.mul_le_mul_left _ hpos
+    simp only [due] at hle0
+    omega
+  have hdep : p.deposit = some dep := by rw [hi.propDeposit id p hp, hg.cfg]
+  have hpos0 := hi.depositPos dep hg.cfg
+  simp only [tx, moveFunds, List.isEmpty_nil, if_true, he]
+  subst hout
+  simp only [hdep]
+  show (dispatch ext (fuel + 1) _ blk _).isOk = true
+  split
+  · -- the refund is dispatched
+    by_cases hcw : dep.cw20 = true
+    · obtain ⟨htok, hcap⟩ := hcapT hcw
+      simp only [holdings, hcw, if_true] at hle
+      obtain ⟨t', ht'⟩ := cw20_transfer_isOk (blk := blk) hle hcap
+      simp [refundMsg, hcw, dispatch, tokenCall, htok, ht', bind, Except.bind, check, pure, Except.pure]
+      cases fuel <;> simp [dispatch, Res.isOk]
+    · have hcw' : dep.cw20 = false := by simpa using hcw
+      simp only [holdings, hcw', Bool.false_eq_true, if_false, balance] at hle
+      obtain ⟨b, hb⟩ := bankSend_isOk hpos0 hle (hcapN hcw')
+      simp [refundMsg, hcw', dispatch, hb, bind, Except.bind, pure, Except.pure]
+      cases fuel <;> simp [dispatch, Res.isOk]
+  · simp [dispatch, Res.isOk]
+
+/-! ### (d) the guard is necessary; non-vacuity -/
+
+namespace CexPool
+
+/-- The configured deposit of `Cex.inst`: 5ucosm, native, refunds of failed proposals enabled. -/
+def dep : Deposit := ⟨5, "ucosm", false, true⟩
+
+/-- `a` and `b` hold 20ucosm each, the multisig holds 3uatom and no ucosm. -/
+def world0 : World :=
+  World.init Cex.flex0 Cex.group0 Cex.token0 [(("a", "ucosm"), 20), (("b", "ucosm"), 20), (("ms", "uatom"), 3)] "ms" "grp" "tok" 5
+
+/-- Two concurrent deposit-paying proposals; proposal 1 — which pays 5ucosm of the treasury to `x` — passes and is
+executed (its own deposit is refunded first, then the other proposal's deposit leaves with the payment). -/
+def opsSpend : List Op :=
+  [⟨⟨10, 0⟩, .flex "a" [⟨5, "ucosm"⟩] (.propose "t" "d" [.bank "x" 5 "ucosm"] none)⟩,
+   ⟨⟨10, 0⟩, .flex "b" [⟨5, "ucosm"⟩] (.propose "t" "d" [] none)⟩,
+   ⟨⟨11, 0⟩, .flex "b" [] (.vote 1 .yes)⟩,
+   ⟨⟨12, 0⟩, .flex "x" [] (.execute 1)⟩]
+
+/-- The same history, but proposal 1 pays 3uatom (not the deposit denomination). -/
+def opsClean : List Op :=
+  [⟨⟨10, 0⟩, .flex "a" [⟨5, "ucosm"⟩] (.propose "t" "d" [.bank "x" 3 "uatom"] none)⟩,
+   ⟨⟨10, 0⟩, .flex "b" [⟨5, "ucosm"⟩] (.propose "t" "d" [] none)⟩,
+   ⟨⟨11, 0⟩, .flex "b" [] (.vote 1 .yes)⟩,
+   ⟨⟨12, 0⟩, .flex "x" [] (.execute 1)⟩]
+
+def wSpend : World := run Cex.noExt 10 world0 opsSpend
+def wClean : World := run Cex.noExt 10 world0 opsClean
+
+end CexPool
+
+example : Cex.flex0.cfg.deposit = some CexPool.dep := by decide
+
+/-- **C15, pool clause (d): the guard `NoSpend` is necessary — machine-checked.**  (The scenario of
+`corpus/C15/close_when_treasury_short.ops`.)  Every transaction is sent by an outsider (`External`); proposal 1 spends
+5ucosm of the treasury and is executed, so the guard fails; afterwards the multisig holds 0ucosm while the 5ucosm
+deposit of proposal 2 is still owed.  Proposal 2 expires stored `Open`; at block 20 the `Close` *handler* returns `Ok`
+with the refund message, but the *transaction* fails (the bank send is not covered) and the world is rolled back: the
+proposal stays closable and its deposit stays unrecoverable as long as the treasury is short.  Only a `Close` that
+brings the missing 5ucosm itself goes through. -/
+theorem pool_guard_necessary :
+    External "ms" CexPool.opsSpend ∧ noSpendB CexPool.dep CexPool.wSpend = false ∧
+    unreturned CexPool.wSpend = [2] ∧ owed CexPool.wSpend = 5 ∧ holdings CexPool.dep CexPool.wSpend = 0 ∧
+    ((execute CexPool.wSpend.flex CexPool.wSpend.group "ms" ⟨20, 0⟩ "x" [] (.close 2)).toOption.map (·.2))
+      = some [Out.bank "b" 5 "ucosm"] ∧
+    (tx Cex.noExt 10 CexPool.wSpend ⟨20, 0⟩ (.flex "x" [] (.close 2))).isOk = false ∧
+    (step Cex.noExt 10 CexPool.wSpend ⟨⟨20, 0⟩, .flex "x" [] (.close 2)⟩).flex.core = CexPool.wSpend.flex.core ∧
+    ((tx Cex.noExt 10 CexPool.wSpend ⟨20, 0⟩ (.flex "x" [⟨5, "ucosm"⟩] (.close 2))).toOption.map fun w' =>
+      (balance w' "b" "ucosm", balance w' "ms" "ucosm")) = some (20, 0) := by
+  decide
+
+/-- The counterexample really is a case of `Dirty`: the executed proposal 1 carries a spending message. -/
+example : Dirty CexPool.dep CexPool.wSpend :=
+  ⟨1, ⟨"t", "d", 10, .atHeight 15, [.bank "x" 5 "ucosm"], .executed, .absoluteCount 3, 5, ⟨3, 0, 0, 0⟩, "a", some CexPool.dep⟩,
+    by decide, by decide, _, List.mem_cons_self .., rfl⟩
+
+/-- **Non-vacuity of `pool_covers_owed_if_unspent` and `refund_never_fails_for_lack_of_funds_guarded`** (native
+deposit): the hypotheses hold on a history with two concurrent deposit-paying proposals one of which is executed and
+pays out another denom; proposal 2's deposit is still owed, and the theorems give `5 = owed ≤ holdings = 5`, and that
+the refund to `b` cannot fail. -/
+example :
+    owed CexPool.wClean ≤ holdings CexPool.dep CexPool.wClean ∧
+    (unreturned CexPool.wClean, owed CexPool.wClean, holdings CexPool.dep CexPool.wClean, handled CexPool.wClean.log 1)
+      = ([2], 5, 5, 1) ∧
+    ∃ b, Cw3Fixed.bankSend CexPool.wClean.bank CexPool.wClean.self "b" 5 "ucosm" = .ok b :=
+  ⟨pool_covers_owed_if_unspent (ext := Cex.noExt) (fuel := 10) (m := Cex.inst) (g := Cex.group0) (dep := CexPool.dep)
+      (ops := CexPool.opsClean) (self := "ms") rfl (by decide) (by intro h; cases h) (by decide) (noSpend_of_check (by decide)),
+   by decide,
+   (refund_never_fails_for_lack_of_funds_guarded (ext := Cex.noExt) (fuel := 10) (m := Cex.inst) (g := Cex.group0)
+      (dep := CexPool.dep) (ops := CexPool.opsClean) (self := "ms") (t := Cex.token0)
+      (bank := [(("a", "ucosm"), 20), (("b", "ucosm"), 20), (("ms", "uatom"), 3)]) (ga := "grp") (ta := "tok") (h0 := 5)
+      rfl (by decide) (by intro h; cases h) (by decide) (noSpend_of_check (by decide)) (id := 2) (by decide)).2.1 rfl "b" (by decide)⟩
+
+/-- Non-vacuity of `close_tx_commits_guarded`, `deposits_taken_exact`, `deposits_returned_exact_close`: in the clean
+world the `Close` of the expired proposal 2 commits and returns the 5ucosm to `b`. -/
+example :
+    ((tx Cex.noExt 10 CexPool.wClean ⟨20, 0⟩ (.flex "x" [] (.close 2))).toOption.map fun w' =>
+      (balance w' "b" "ucosm", holdings CexPool.dep w', owed w')) = some (20, 0, 0) := by
+  decide
+
+/-- **Non-vacuity for a cw20 deposit** (`pool_covers_owed_if_unspent` with `dep.cw20 = true`): the token starts with no
+allowance at all (so the multisig has granted none), `a` grants the multisig an allowance and proposes; the deposit
+pulled by `TransferFrom` is owed and covered. -/
+example :
+    let w := run Cex.noExt 10 Cex20.world0 (Cex20.ops.take 2)
+    owed w ≤ holdings ⟨5, "tok", true, true⟩ w ∧ (owed w, holdings ⟨5, "tok", true, true⟩ w) = (5, 5) :=
+  ⟨pool_covers_owed_if_unspent (ext := Cex.noExt) (fuel := 10) (m := Cex20.inst) (g := Cex.group0)
+      (dep := ⟨5, "tok", true, true⟩) (ops := Cex20.ops.take 2) (self := "ms") (t := Cex20.token0) rfl (by decide)
+      (fun _ sp => rfl) (by decide) (noSpend_of_check (by decide)),
+   by decide⟩
 
 end CwPlus.Props.C15
